@@ -28,7 +28,7 @@ ASSUMPTIONS = ['numerically solved dispersion/trace orders are compared to 1e-6 
 PLAN = {'quick': {'gen': 8}, 'thorough': {'gen': 16, 'tests': 1}}
 REQUIRED_BUCKETS = ['tilt:subpixel', 'tilt:pixels', 'tilt:beyond-output', 'du:aniso', 'du:iso', 'os>1', 'segmented',
                     'rep:ramp', 'rep:plane', 'rep:wavefront', 'rep:fit', 'multi-tilt', 'scan', 'disp:propagated', 'sequence', 'disp:order1', 'disp:order>1',
-                    'refit-after-update', 'refit-segmented', 'fit:flat-segments', 'fit:fill-outside-mask']
+                    'refit-after-update', 'refit-segmented', 'fit:flat-segments', 'fit:fill-outside-mask', 'opd:not-c-contiguous']
 REQUIRED_ANCHORS = ['anchor:Tilt.shift', 'anchor:Field.shift', 'anchor:fit_tilt', 'anchor:ptt_vector',
                     'anchor:DispersiveTilt.shift', 'probe:propagate_dft']
 REQUIRED_ORACLES = ['rep=model', 'fit=lstsq', 'fit:opd+tilt', 'shift:additive', 'shift:order', 'shift:signs',
@@ -131,6 +131,14 @@ def rand_dispersive(rng):
     return trace, disp, to, do, lam0
 
 
+def _lay(ctx, rng, a):
+    """The same map in another memory layout (Fortran order as read from a .mat / IDL file, a transposed or strided view)."""
+    b = gen.layout(rng, a, p=0.4)
+    if b is not a and not b.flags.c_contiguous:
+        ctx.bucket('opd:not-c-contiguous')
+    return b
+
+
 def workload(ctx, lentil):
     rng = ctx.rng
     n = ctx.count(70, 500)
@@ -187,7 +195,7 @@ def workload(ctx, lentil):
                                                                 focal_length=z) * lentil.Tilt(x=tx, y=ty)
             reps['wavefront'] = lentil.Wavefront(wl, tilt=[tx, ty]) * lentil.Pupil(amplitude=amp, opd=opd,
                                                                                    pixelscale=dx, focal_length=z)
-            reps['fit'] = lentil.Wavefront(wl) * lentil.Pupil(amplitude=amp, opd=opd + ramp(shape, dxs, tx, ty),
+            reps['fit'] = lentil.Wavefront(wl) * lentil.Pupil(amplitude=amp, opd=_lay(ctx, rng, opd + ramp(shape, dxs, tx, ty)),
                                                               pixelscale=dx, focal_length=z).fit_tilt()
         except Exception as e:
             ctx.check(False, 'rep=model', f'rep|build-raises={type(e).__name__}', f'{type(e).__name__}: {e}', desc)
@@ -403,7 +411,7 @@ def workload(ctx, lentil):
         desc = {'fit_tilt': list(shape), 'segments': len(segs), 'seg3d': bool(seg), 'dx': list(dxs),
                 'opd': probe.fp_array(opd)[:10]}
         ctx.case(desc, ['segmented'] if len(segs) > 1 else [])
-        pl = lentil.Pupil(amplitude=amp, opd=opd.copy(), mask=(segs.astype(float) if seg else A.astype(float)),
+        pl = lentil.Pupil(amplitude=amp, opd=_lay(ctx, rng, opd.copy()), mask=(segs.astype(float) if seg else A.astype(float)),
                           pixelscale=dxs, focal_length=1.0)
         inplace = bool(rng.random() < 0.5)
         try:
